@@ -75,6 +75,8 @@ pub mod asm {
     use vstd::prelude::*;
     use crate::*;
     pub use resolver::{ResolutionState, ResolveIterator, ResolverContext, ResolverNode, BankData};
+    #[allow(unused_imports)]
+    use resolver::*;
     verus! {
     #[verifier::external_body]
     pub struct Ruledef { _p: u8 }
